@@ -138,8 +138,8 @@ fn prepare(rng : &mut Rng, sc : &Scenario, flavor : Flavor, out : &mut Out) -> P
         if flavor == Flavor::WithFailures && rng.chance(1, 8) { continue; }
         apply(Op::Write(l.clone(), rng.pick(&["X", "X", "Y"]).as_bytes().to_vec()), &mut prep, &mut tr, out);
     }
-    let state = rng.below(6);
-    out.count(&format!("initial-state:{}", ["fresh", "built", "built-cleaned", "built-edited", "built-cleaned-edited", "built-tampered"][state]));
+    let state = rng.below(8);
+    out.count(&format!("initial-state:{}", ["fresh", "built", "built-cleaned", "built-edited", "built-cleaned-edited", "built-tampered", "built-partly-cleaned-edited", "built-partly-cleaned-edited"][state]));
     if state >= 1 { apply(Op::Build(None), &mut prep, &mut tr, out); }
     match state
     {
@@ -158,6 +158,15 @@ fn prepare(rng : &mut Rng, sc : &Scenario, flavor : Flavor, out : &mut Out) -> P
                 let t = rng.pick(&targets).clone();
                 if rng.chance(1, 2) { apply(Op::Write(t, b"tampered".to_vec()), &mut prep, &mut tr, out); } else { apply(Op::Remove(t), &mut prep, &mut tr, out); }
             }
+        },
+        6 | 7 =>
+        {
+            // some targets cleaned (they will be restored), others left in place, then a leaf edited so that
+            // rules whose stale targets get backed up run beside rules that restore
+            let targets : Vec<String> = sc.all_targets().into_iter().collect();
+            for _ in 0..rng.range(1, 2) { if !targets.is_empty() { let t = rng.pick(&targets).clone(); apply(Op::Clean(Some(t)), &mut prep, &mut tr, out); } }
+            let ls : Vec<String> = leaves.iter().cloned().collect();
+            if !ls.is_empty() { let l = rng.pick(&ls).clone(); apply(Op::Write(l, rng.pick(&["X", "Y"]).as_bytes().to_vec()), &mut prep, &mut tr, out); }
         },
         _ => {},
     }
@@ -392,7 +401,7 @@ pub fn schedules(ctx : &Ctx, out : &mut Out)
                 tr.ever_targets.extend(sc.all_targets());
                 let p = Prepared{driver : driver, prep : prep.to_vec(), tracker : tr, scenario : sc};
                 let mut rng = Rng::new(ctx.seed).fork(77);
-                explore(out, &mut rng, &p, &last[0], 20, 5, 400);
+                explore(out, &mut rng, &p, &last[0], if ctx.thorough { 400 } else { 150 }, 30, if ctx.thorough { 4000 } else { 600 });
             }
         }
     }
